@@ -241,6 +241,12 @@ func (f *frame) callFunction(fn *ssa.Function, args []Val, bindings []Val, pos t
 			for i, fv := range fn.FreeVars {
 				if i < len(bindings) {
 					extra[fv.Name()] = TV{bindings[i], fv.Type()}
+					if pt, ok := fv.Type().Underlying().(*types.Pointer); ok {
+						if ref, isRef := bindings[i].(Term); isRef {
+							extra[fv.Name()+"$ref"] = TV{ref, fv.Type()}
+							extra[fv.Name()] = TV{v.loadCell(f.cur, ref, pt.Elem(), false), pt.Elem()}
+						}
+					}
 				}
 			}
 		}
